@@ -128,9 +128,25 @@ def cvc_conf(c):
     return L
 
 
+def files_dir():
+    d = os.path.join(V.BUILD, "scratch", "C01-files")
+    os.makedirs(d, exist_ok=True)
+    return d
+
+
+def write_files(case):
+    """reference files named by a raw configuration (path files, XYZ reference frames): @FILES@/<name> in the text"""
+    for name, content in (case.get("files") or {}).items():
+        pth = os.path.join(files_dir(), name)
+        if not os.path.exists(pth) or open(pth).read() != content:
+            with open(pth + ".tmp%d" % os.getpid(), "w") as f:
+                f.write(content)
+            os.replace(pth + ".tmp%d" % os.getpid(), pth)
+
+
 def config_text(case):
     if "raw_config" in case:
-        return case["raw_config"]
+        return case["raw_config"].replace("@FILES@", files_dir())
     L = []
     for i, v in enumerate(case["vars"]):
         L += ["colvar {", "  name v%d" % i, "  width %r" % v["width"]]
@@ -222,6 +238,7 @@ def fd_coords(case):
 
 def scenario(case, tag, with_fd=True):
     """vsim commands for one case: base step + finite-difference steps"""
+    write_files(case)
     at = case["atoms"]
     L = ["echo CASE %s" % tag, "natoms %d" % len(at)]
     for i, (m, q, p) in enumerate(at):
@@ -1253,7 +1270,8 @@ def gen_unmodelled(r, n):
                   "center_distancePairs", "rot_distancePairs", "distancePairs_linear",
                   "center1_distanceVec", "center1_fit_distanceDir", "center1_distancePairs",
                   "rmsd_perm", "lincomb_coordNum", "lincomb_selfCoordNum", "distanceZ2_period",
-                  "ev_forceNoPBC", "ev_period", "ev_distanceVec_coeff", "ev_rmsd_exp", "ev_dihedral_coeff", "ev_distancePairs_coeff"]
+                  "ev_forceNoPBC", "ev_period", "ev_distanceVec_coeff", "ev_rmsd_exp", "ev_dihedral_coeff", "ev_distancePairs_coeff",
+                  "gspathCV", "gzpathCV", "aspathCV", "azpathCV", "gspath", "gzpath", "aspath", "azpath", "scripted_vsum"]
     names = names + cell_names
     only = os.environ.get("C01_ONLY")          # debugging aid: restrict the sweep to kinds containing this text
     if only:
@@ -1273,6 +1291,7 @@ def gen_unmodelled(r, n):
         cell = None
         pre = None
         script = None
+        files = None
         touched = sorted(set(ids + oth2))
         fitopts = "centerToReference on\n      rotateToReference on\n      refPositions %s" % refpos_str(r, 4)
         if name == "rot_distance":
@@ -1435,6 +1454,70 @@ def gen_unmodelled(r, n):
                 conf = ("colvar {\n  name v0\n  dihedral {\n    group1 {\n      atomNumbers %d\n    }\n    group2 {\n      atomNumbers %d\n    }\n    group3 {\n      atomNumbers %d\n    }\n    group4 {\n      atomNumbers %d\n    }\n  }\n}\n"
                         "harmonic {\n  colvars v0\n  centers 150.0\n  forceConstant 0.001\n}\nharmonicWalls {\n  colvars v0\n  lowerWalls -170.0\n  upperWalls 170.0\n  lowerWallConstant 0.01\n  upperWallConstant 0.02\n}" % tuple(i + 1 for i in ids))
                 script = ['scriptu cv|colvar|v0|modifycvcs|"componentCoeff %r"' % r.choice([2.0, 0.5, -1.5])] + (['scriptu cv|colvar|v0|modifycvcs|"componentExp 2"'] if r.random() < 0.4 else [])
+        elif name in ("gspathCV", "gzpathCV", "aspathCV", "azpathCV"):
+            # path variables in the space of other components (distance, distanceZ; coordNum computes its gradients only
+            # with f_cvc_gradient, see fix-C01-4): reference values from a path file
+            touched = sorted(set(ids[:3] + oth2))
+            third = r.random() < 0.4
+            subs = ("    distance {\n      name d1\n      group1 {\n        atomNumbers %s\n      }\n      group2 {\n        atomNumbers %s\n      }\n    }\n"
+                    "    distanceZ {\n      name d2\n      main {\n        atomNumbers %d\n      }\n      ref {\n        atomNumbers %s\n      }\n      axis (0.6, 0.0, 0.8)\n    }\n"
+                    % (ids_str(ids[:2]), ids_str(oth2), ids[2] + 1, ids_str(oth2)))
+            if third:
+                subs += ("    coordNum {\n      name d3\n      group1 {\n        atomNumbers %s\n      }\n      group2 {\n        atomNumbers %s\n      }\n      cutoff 4.0\n    }\n"
+                         % (ids_str(ids[:2]), ids_str(oth2)))
+            nfr = r.choice([3, 4, 5])
+            rows = []
+            for fr in range(nfr):
+                row = [1.0 + 1.75 * fr + V.dyadic(r, -0.5, 0.5, bits=3), -3.0 + 1.5 * fr + V.dyadic(r, -0.5, 0.5, bits=3)]
+                if third:
+                    row.append(0.25 + 0.5 * fr)
+                rows.append(" ".join("%r" % x for x in row))
+            fname = "path_%s_%d.txt" % (name, i)
+            files = {fname: "\n".join(rows) + "\n"}
+            extra = ""
+            if name in ("gspathCV", "gzpathCV"):
+                extra = "    useSecondClosestFrame %s\n    useThirdClosestFrame %s\n" % (("on", "off") if r.random() < 0.6 else ("off", "on"))
+                if name == "gzpathCV" and r.random() < 0.5:
+                    extra += "    useZsquare on\n"
+            else:
+                extra = "    lambda %r\n" % r.choice([0.5, 1.0, 0.25])
+                if r.random() < 0.5:
+                    extra += "    weights %s\n" % " ".join("%r" % r.choice([1.0, 0.5, 2.0]) for _ in range(3 if third else 2))
+            cen = {"gspathCV": 0.4, "gzpathCV": 1.0, "aspathCV": 0.5, "azpathCV": 2.0}[name]
+            conf = ("colvar {\n  name v0\n  %s {\n%s    pathFile @FILES@/%s\n%s  }\n}\nharmonic {\n  colvars v0\n  centers %r\n  forceConstant %r\n}"
+                    % (name, subs, fname, extra, cen, r.choice([2.0, 10.0, 1.0])))
+        elif name in ("gspath", "gzpath", "aspath", "azpath"):
+            # path variables in Cartesian space: reference frames from XYZ files, each frame fitted by its own copy of the group
+            ids = sorted(ids)
+            touched = list(ids)
+            nfr = r.choice([3, 4])
+            frame0 = [[V.dyadic(r, -3, 3, bits=3) for _ in range(3)] for _ in ids]
+            drift = [[V.dyadic(r, -1, 1, bits=3) for _ in range(3)] for _ in ids]
+            files = {}
+            reflines = ""
+            for fr in range(nfr):
+                fname = "frame_%s_%d_%d.xyz" % (name, i, fr)
+                L_ = ["%d" % len(ids), "frame %d" % fr]
+                for p0, dv in zip(frame0, drift):
+                    L_.append("X " + " ".join("%r" % (a_ + fr * b_ + V.dyadic(r, -0.25, 0.25, bits=3)) for a_, b_ in zip(p0, dv)))
+                files[fname] = "\n".join(L_) + "\n"
+                reflines += "    refPositionsFile%d @FILES@/%s\n" % (fr + 1, fname)
+            extra = ""
+            if name in ("gspath", "gzpath"):
+                extra = "    useSecondClosestFrame %s\n    useThirdClosestFrame %s\n" % (("on", "off") if r.random() < 0.6 else ("off", "on"))
+                if name == "gzpath" and r.random() < 0.5:
+                    extra += "    useZsquare on\n"
+            else:
+                extra = "    lambda %r\n" % r.choice([0.5, 1.0, 0.25])
+            cen = {"gspath": 0.4, "gzpath": 1.0, "aspath": 0.5, "azpath": 2.0}[name]
+            conf = ("colvar {\n  name v0\n  %s {\n    atoms {\n      atomNumbers %s\n    }\n%s%s  }\n}\nharmonic {\n  colvars v0\n  centers %r\n  forceConstant %r\n}"
+                    % (name, ids_str(ids), reflines, extra, cen, r.choice([2.0, 10.0, 1.0])))
+        elif name == "scripted_vsum":
+            # scriptedFunction through the engine's callback (vsim: vsum = sum of the component values, gradient 1)
+            touched = sorted(set(ids[:3] + oth2))
+            conf = ("colvar {\n  name v0\n  scriptedFunction vsum\n  distance {\n    componentCoeff 3.0\n    group1 {\n      atomNumbers %s\n    }\n    group2 {\n      atomNumbers %s\n    }\n  }\n"
+                    "  distanceZ {\n    main {\n      atomNumbers %d\n    }\n    ref {\n      atomNumbers %s\n    }\n    axis (0.6, 0.0, 0.8)\n  }\n}\n%s"
+                    % (ids_str(ids[:2]), ids_str(oth2), ids[2] + 1, ids_str(oth2), harm))
         elif name == "dihedral_walls":
             touched = sorted(ids)
             conf = ("colvar {\n  name v0\n  dihedral {\n    group1 {\n      atomNumbers %d\n    }\n    group2 {\n      atomNumbers %d\n    }\n    group3 {\n      atomNumbers %d\n    }\n    group4 {\n      atomNumbers %d\n    }\n  }\n}\n"
@@ -1449,6 +1532,8 @@ def gen_unmodelled(r, n):
         c = raw_case(r, full_name, na, conf, touched, cell=cell)
         if script:
             c["script"] = script
+        if files:
+            c["files"] = files
         if wrap:
             # a periodic cell in which some of the named atoms sit in other images: centre / pair differences wrap
             c["cell"] = tuple(r.choice([8.0, 10.0, 12.0]) for _ in range(3))
@@ -1723,7 +1808,7 @@ def check(run):
     # ---- finite-difference sweep over configurations the model does not cover (a few per kind in the quick tier)
     if True:
         ur = V.rng("C01-unmodelled")
-        ucases = gen_unmodelled(ur, 165 if quick else 6000)
+        ucases = gen_unmodelled(ur, 192 if quick else 6000)
         ures = run_vsim(vsim, ucases)
         for case, res in zip(ucases, ures):
             name = case["name"]
